@@ -16,8 +16,9 @@ for m in repo.modules.values():
     keys = alpha.stable_keys(fs)
     for q, f in fs.items():
         fp = alpha.fingerprints(f.node)
-        if fp:
-            out[keys[q]] = fp
+        it = alpha.if_tests(f.node)
+        if fp or it:
+            out[keys[q]] = {'l': fp, 'i': it}
 import hashlib
 out['__modules__'] = {m.rel(): hashlib.sha1(m.src.encode()).hexdigest() for m in repo.modules.values()}
 os.makedirs(os.path.join(HERE, 'baseline'), exist_ok=True)
